@@ -677,13 +677,21 @@ def omp_join(tu, g, anc):
             'indices have not run yet (they run later, with the caller\'s frame and functor possibly gone)' % why, d)
 
 
-def check_impl(ctx, tu, f, cfgname, chains):
+_IMPL_DONE = {}
+
+
+def check_impl(ctx, tu, f, cfgname, chains, depth=0):
     R1, R2 = 'R-C01-1', 'R-C01-2'
+    memo_key = (id(tu), f['id'], cfgname)
+    if memo_key in _IMPL_DONE:
+        return _IMPL_DONE[memo_key]
+    _IMPL_DONE[memo_key] = {'helper'}
     g = tu.cfg(f)
     inst = inst_name(f, cfgname)
     loc = tu.fn_loc(f)
     file = tu.fn_file(f)
-    key = lambda rule, d: '%s|%s|parallel_for_impl|%s:%s' % (rule, file, cfgname, d)
+    fnname = 'parallel_for_impl' if f['q'] == IMPL else f['q'].split('::')[-1]
+    key = lambda rule, d: '%s|%s|%s|%s:%s' % (rule, file, fnname, cfgname, d)
     if g is None or len(f['params']) != 2:
         ctx.undecided(R1, inst, 'no CFG / unexpected parameter list', loc)
         return
@@ -796,6 +804,26 @@ def check_impl(ctx, tu, f, cfgname, chains):
             cf = tu.callee_fn(n)
             pt = clean_type(cf['params'][0]['ct']) if cf and cf.get('params') else None
             count_args.append(('internal', through_defs(args[0]), pt, n))
+        else:
+            # a helper of the analysed tree that is handed the count and the functor is a dispatch of its own:
+            # it is analysed like this function (same rules) and its call counts as one dispatch of the whole range
+            cf = inlinable(tu, n)
+            if cf is not None and depth < 3 and len(args) == 2 and len(cf.get('params', [])) == 2 and \
+                    irange(cf['params'][0]['ct']) is not None and obj_path(tu, args[1]) == fpath and not cf['dep']:
+                ll = lin(tu, args[0], env)
+                if ll == Lin.atom(('p', ppath)):
+                    kinds.add('helper')
+                    events[n['id']] = 'helper'
+                    recognised.add(n['id'])
+                    sub = check_impl(ctx, tu, cf, cfgname, chains, depth + 1)
+                    if not sub:
+                        und.append('the dispatch helper `%s` is not decided' % cf['q'].split('::')[-1])
+                    count_args.append(('helper', through_defs(args[0]), clean_type(cf['params'][0]['ct']), n))
+                elif (ll - Lin.atom(('p', ppath))).is_const():
+                    recognised.add(n['id'])
+                    kinds.add('helper')
+                    events[n['id']] = 'helper'
+                    problems.append(('helper-count', '`%s` receives `%r` instead of the count' % (cf['q'].split('::')[-1], ll), n))
     # ---- loops (one per dispatch arm, e.g. selected by omp_in_parallel())
     loops = analyse_counting_loops(tu, f, g, {fpath}, Lin.const(0), Lin.atom(('p', ppath)))
     for li in loops:
@@ -838,7 +866,7 @@ def check_impl(ctx, tu, f, cfgname, chains):
             name = tu.sd(d).get('directive', d['kind'])
             if d['id'] not in used and name not in ('taskwait', 'barrier', 'taskgroup', 'taskyield', 'flush'):
                 und.append('OpenMP directive `%s` is not attached to a recognised counting loop' % name)
-    if not kinds & {'tbb', 'internal', 'loop'}:
+    if not kinds & {'tbb', 'internal', 'loop', 'helper'}:
         if functor_uses(tu, f, pf, recognised):
             ctx.undecided(R1, inst, 'no recognised backend dispatch; the functor is handed to something that is not understood', loc)
         else:
@@ -864,7 +892,7 @@ def check_impl(ctx, tu, f, cfgname, chains):
     elif not und:
         ctx.ok(R1, inst, 'dispatch %s exactly once on every path with a positive count' % '+'.join(sorted(kinds)), loc)
     # ---- R-C01-3: conversions
-    fn = 'parallel_for_impl'
+    fn = fnname
     for kind, node, ptype, call in count_args:
         sg = seen.get(call['id'], set(signs_of_type(nct)))
         lo, hi = range_for_signs(nct, sg)
@@ -875,7 +903,8 @@ def check_impl(ctx, tu, f, cfgname, chains):
             chains.append(dict(kind='internal-count', f=f, chain=ch, lo=lo, hi=hi, call=call, inst=inst, cfg=cfgname,
                                nct=nct, signs=sg))
         else:
-            check_chain(ctx, tu, inst, 'count to tbb::parallel_for', ch, lo, hi, tu.loc(call), file, fn, cfgname)
+            check_chain(ctx, tu, inst, 'count to tbb::parallel_for' if kind == 'tbb' else 'count to the dispatch helper', ch, lo, hi,
+                        tu.loc(call), file, fn, cfgname)
     for li in [l_ for l_ in loops if l_.ivar is not None and not l_.undecided]:
         M = irange(nct)[1]
         # induction variable must be able to hold every index below the count
@@ -899,7 +928,8 @@ def check_impl(ctx, tu, f, cfgname, chains):
         if li.arg is not None:
             lf, ch = cast_chain(tu, li.arg)
             check_chain(ctx, tu, inst, 'index to the functor', ch, 0, max(M - 1, 0), tu.loc(li.arg), file, fn, cfgname)
-    return kinds
+    _IMPL_DONE[memo_key] = kinds if not und else set()
+    return _IMPL_DONE[memo_key]
 
 
 def check_forwarder(ctx, tu, f, cfgname, callee_q, rule, fn_name, what):
@@ -1970,6 +2000,12 @@ def check_wait_for_task(ctx, tu):
 
     def classify(cond):
         """('null', truth-when-nonnull) | ('zero', truth-when-zero) | None"""
+        c_, pos_ = strip_not(tu, cond)
+        if c_ is not None and not pos_:
+            r_ = classify(c_)
+            return None if r_ is None else (r_[0], not r_[1])
+        if c_ is not None:
+            cond = c_
         a = bool_atom(tu, cond)
         if a is None:
             n = leaf(tu, cond)
@@ -3571,6 +3607,55 @@ def ceil_form(NB, N, B, signs, signed):
     return None
 
 
+def callable_of(tu, e):
+    """(operator() function, captures) for the callable handed to parallel_for: a lambda, or a temporary of a class with
+    exactly one operator() built by aggregate initialisation / a member-wise constructor.  captures maps ('this', field) to
+    the access path of the expression the field was initialised from (lambda captures need no mapping)."""
+    n = leaf(tu, e)
+    hops = 0
+    while n is not None and n.get('kind') in ('CXXFunctionalCastExpr', 'CXXBindTemporaryExpr', 'CXXTemporaryObjectExpr') \
+            and tu.kids(n) and hops < 4 and n.get('kind') != 'CXXTemporaryObjectExpr':
+        n = leaf(tu, tu.kids(n)[-1])
+        hops += 1
+    if n is None:
+        return None, None
+    if n.get('kind') == 'LambdaExpr':
+        return tu.functions.get(tu.sd(n).get('op')), {}
+    ct = (tu.sd(n).get('ct') or '').strip()
+    if ct.startswith('const '):
+        ct = ct[6:]
+    ct = ct.rstrip('&').strip()
+    rec = tu.records_by_type.get(ct) if ct else None
+    if rec is None:
+        return None, None
+    ops = [f_ for f_ in tu.functions.values() if f_.get('recid') == rec['id'] and f_['q'].endswith('::operator()') and not f_['dep']]
+    if len(ops) != 1:
+        return None, None
+    caps = {}
+    if n.get('kind') == 'InitListExpr':
+        inits = tu.kids(n)
+        if len(inits) != len(rec['fields']):
+            return None, None
+        for fl, ie in zip(rec['fields'], inits):
+            caps[('this', fl['name'])] = obj_path(tu, ie)
+    elif n.get('kind') in ('CXXConstructExpr', 'CXXTemporaryObjectExpr'):
+        ctor = tu.callee_fn(n)
+        cg = tu.cfg(ctor) if ctor is not None else None
+        if cg is None:
+            return None, None
+        args = tu.kids(n)
+        pmap = {param_path(p_): obj_path(tu, a_) for p_, a_ in zip(ctor['params'], args)}
+        for blk, i, el in cg.elements():
+            if el[0] == 'I' and el[3] != '<base>':
+                src = obj_path(tu, tu.node(el[1])) if tu.node(el[1]) is not None else None
+                caps[('this', el[3])] = pmap.get(src)
+    else:
+        return None, None
+    if any(v is None for v in caps.values()):
+        return None, None
+    return ops[0], caps
+
+
 def check_blocks(ctx, tu, cfgname):
     R = 'R-C01-4'
     n_inst = 0
@@ -3933,11 +4018,11 @@ def check_foreach(ctx, tu, cfgname):
             continue
         call = calls[0]
         s, obj, args = call_args(tu, call)
-        lam = leaf(tu, args[1]) if len(args) == 2 else None
-        lamf = tu.functions.get(tu.sd(lam).get('op')) if lam is not None and lam.get('kind') == 'LambdaExpr' else None
+        lamf, caps = callable_of(tu, args[1]) if len(args) == 2 else (None, None)
         if lamf is None or tu.cfg(lamf) is None or len(lamf['params']) != 1:
-            ctx.undecided(R, inst, 'second argument of parallel_for is not a lambda taking the index', loc)
+            ctx.undecided(R, inst, 'second argument of parallel_for is not a lambda / function object taking the index', loc)
             continue
+        rp = lambda p_: caps.get(p_, p_) if p_ is not None else None
         defs = local_defs(tu, [f, lamf])
         und, bad = [], []
         # parallel_for must be reached exactly once unless the range is known to be empty: guards on the element count
@@ -4000,7 +4085,7 @@ def check_foreach(ctx, tu, cfgname):
         for b, i, n in lg.stmts():
             if n.get('kind') in CALLS:
                 s2, obj2, args2 = call_args(tu, n)
-                if obj2 is not None and obj_path(tu, obj2) == fpath and s2.get('q', '').endswith('operator()'):
+                if obj2 is not None and rp(obj_path(tu, obj2)) == fpath and s2.get('q', '').endswith('operator()'):
                     fcalls.append((n, args2))
         if len(fcalls) != 1 or len(fcalls[0][1]) != 1:
             und.append('the lambda does not contain exactly one call f(element)')
@@ -4014,6 +4099,7 @@ def check_foreach(ctx, tu, cfgname):
                 und.append('element expression `%s` is not recognised' % tu.show(fa[0]))
             else:
                 (kind, base), idx = ef
+                base = rp(base)
                 if base != bpath:
                     if base == epath:
                         bad.append(('element-base', 'elements are addressed relative to `end` instead of `begin`'))
